@@ -33,15 +33,16 @@ impl Watch {
     /// Feed one receive buffer. The application loops `recv` until the cursor is exhausted
     /// and stops reading once a close was requested. Returns the event lists per call.
     pub fn feed(&mut self, chunk: &[u8]) -> Vec<Vec<Ev>> {
+        let reading = !self.stopped_reading() && self.viol.is_none();
         if let Some(c) = self.calls.as_mut() {
-            if !self.want_close && self.viol.is_none() {
+            if reading {
                 c.push(WCall::Feed(chunk.to_vec()));
             }
         }
         let mut out = vec![];
         let mut pos = 0usize;
         while pos < chunk.len() && !self.failed() {
-            if self.want_close {
+            if self.stopped_reading() {
                 break;
             }
             let what = format!("recv(+{}B)", chunk.len() - pos);
@@ -187,6 +188,11 @@ impl Watch {
             }
         }
 
+        // C14: a frame within the local limit must not be rejected as too large
+        if evs.iter().any(|e| e.err_code() == Some(E_TOO_LARGE)) {
+            self.flag(&["C14"], "within-limit-frame-rejected-as-too-large", format!("{what}: {} bytes, local Maximum Packet Size {:?}: {}", frame.len(), self.m.mps_recv, evs_short(evs)));
+            return;
+        }
         // C17: role gating
         let v_eff = if self.m.ver != 0 { self.m.ver } else { pkt.v };
         if self.m.ver == 0 {
